@@ -188,6 +188,25 @@ func init() {
 		// errors raised inside a partial carry the outer tag's line first
 		judge("partial", "a\nb\n<%= partial(\"failing\") %>", 3, "exec")
 		judge("partial", "a\n<%= partial(\"bad\") %>\n", 2, "exec")
+		// the failing statement directly FOLLOWS one or more # line comments (a comment tag whose comment
+		// swallows its own %>, comment lines at the top of a multi-line tag): the line is that of the
+		// statement's first token, not that of the comment
+		for _, t := range []struct {
+			src  string
+			line int
+			kind string
+		}{
+			{"<p>\n<% # note %>\n<%= undefinedThing %>\n", 3, "exec"}, {"<%\n# first\n# second\nundefinedThing.Foo()\n%>", 4, "exec"}, {"a\n<%\n# c\nlet = 3 %>", 4, "parse"},
+			{"<% # one\n# two\n let z = 1 / 0 %>", 3, "exec"}, {"<%# tag comment %>\n<% # line %>\n<%= xs[99] %>", 3, "exec"}, {"<% # a\n # b\n\n # c\n fail1() %>", 5, "exec"},
+			{"<%= 1 %><% # x %>\n\n<%= (1 + %>", 3, "parse"}, {"<% let q = 1 # set q\n q = 2 # again\n nope = 3 %>", 3, "exec"},
+		} {
+			for wi, w := range c15wraps[:3] {
+				if t.kind == "parse" && wi > 0 {
+					continue
+				}
+				judge("after-line-comment", w.pre+t.src+w.post, t.line+strings.Count(w.pre, "\n"), t.kind)
+			}
+		}
 	})
 }
 
